@@ -40,10 +40,6 @@ structure PipelineHyp (G : Grammar) : Prop where
   noEoi : noEoiB G = true
   dense : ntsDenseB G = true
 
-/-- the executable form of `PipelineHyp` -/
-def pipelineHypB (G : Grammar) : Bool :=
-  decide (checkGrammar G true [] = .ok .passed) && noEoiB G && ntsDenseB G
-
 theorem pipelineHypB_sound {G : Grammar} (h : pipelineHypB G = true) : PipelineHyp G := by
   simp only [pipelineHypB, Bool.and_eq_true, decide_eq_true_eq] at h
   exact ⟨h.1.1, h.1.2, h.2⟩
@@ -123,10 +119,10 @@ theorem pipeline_automaton_exact (G : Grammar) (K fuel A : Nat) (c : LaDfa) (hG 
   have E := genAuto_exact (noEoi_of_B hG.noEoi) hprod hreach hnlr h
   exact ⟨E.sorted, E.run, E.vals⟩
 
-/-- The lookahead depth the generated automaton of `A` carries is the `k` that `decidable`
-    assigned, whenever `A` has more than one alternative … is at most that `k` in general, and the
-    strong-LL lookahead sets at both depths coincide (this is what makes the runtime's `k`-token
-    `eval` exact although `LookaheadDFA.k` is "the length of the longest tuple"). -/
+/-- **Depth of the generated automaton.** `LookaheadDFA.k` is "the length of the longest tuple", not
+    the `k` that `decidable` assigned to the non-terminal. It is never larger than that `k`, and the
+    strong-LL lookahead sets of the alternatives of `A` at both depths coincide — which is why the
+    runtime's `eval`, reading `LookaheadDFA.k` tokens, is exact. -/
 theorem pipeline_automaton_depth (G : Grammar) (K fuel A k : Nat) (c : LaDfa) (hG : PipelineHyp G)
     (h : genAuto G fuel K A = .ok c) (hk : decidableM G fuel A K = .ok k) :
     c.k ≤ k ∧ ∀ (j : Nat) (p : Rule), G.prods[j]? = some p → p.lhs = A →
@@ -166,6 +162,26 @@ theorem pipeline_automaton_depth (G : Grammar) (K fuel A k : Nat) (c : LaDfa) (h
     obtain ⟨S, hS, hmem⟩ := hspec.of_prod hj hl
     have := uniteAll_k hd (j, S) hS t' ((hmem t').2 ht')
     omega
+
+/-- **No false conflict**: for a grammar of the class the generator never answers `Conflict in union
+    operation` — when `decidable` found the lookahead sets of a non-terminal pairwise disjoint, the
+    tries of its alternatives unite without clash (C07 `unite_no_false_conflict` at C05's sets). -/
+theorem pipeline_no_false_conflict (G : Grammar) (K fuel : Nat) (hG : PipelineHyp G) :
+    genTables G K fuel ≠ .error .conflict := by
+  obtain ⟨hprod, hreach, hnlr⟩ := Panic.pre_established_analysis G hG.pass
+  intro h
+  unfold genTables at h
+  split at h
+  · rename_i A e _
+    injection h with h
+    cases e <;> simp [GenErr.ofDec] at h
+  · split at h
+    · rename_i e he
+      injection h with h
+      subst h
+      obtain ⟨A, _, hA⟩ := genAutos_error _ he
+      exact genAuto_no_conflict (noEoi_of_B hG.noEoi) hprod hreach hnlr hA
+    · cases h
 
 /-! ## non-vacuity
 
